@@ -638,7 +638,7 @@ func (c *c06Case) parsePairs(data []byte, strict bool) []string {
 			out = append(out, "bad")
 			break
 		}
-		cl, ct := c.decodeMsgK(data[:l], true, strict) // MergeRemoteState has no empty-key check
+		cl, ct := c.decodeMsgK(data[:l], false, strict) // same validation as NotifyMsg: an empty key is invalid
 		data = data[l:]
 		if cl == "ok" {
 			out = append(out, "ok:"+ct)
